@@ -1,7 +1,8 @@
 """C13 — assume and assert cheatcodes have exactly their stated meaning.
 
-Obligations: T-selectors-assert, T-selectors-assume, Props/C13.vo (theorems about
-Model/AssertModel.v over the regenerated selector tables), lint.
+Obligations: T-selectors-assert, T-selectors-assume, T-assert-arms, T-exc-hierarchy, T-run-excepts,
+Props/C13.vo (theorems about Model/AssertModel.v over the regenerated selector tables, handler
+arms, exception hierarchy and except clauses of SEVM.run), lint.
 Tie X-C13:
   L1  every bound selector with generated ABI-encoded calldata (concrete, symbolic words under
       valuations, malformed) -> the real handler from halmos.assertions -> its condition
@@ -10,7 +11,11 @@ Tie X-C13:
   L2  SEVM.run on a hand-built Exec: a chain of forwarding contracts places the vm.assert* /
       vm.assume call at call depth 0..3; yielded paths, their FailCheatcode flag
       (is_global_fail_set) and constraints are compared with the spec per sampled input and
-      with the branching model fed with the recorded solver answers.
+      with the branching model fed with the recorded solver answers;
+  L2s the same with a SEQUENCE of cheatcode calls issued by the frame at depth 0..3 (asserts,
+      assumes, unsupported overloads, in generated orders): per sampled input the yielded paths are
+      compared with Foundry's run of the sequence on that input alone (C13_seq_exact), and the
+      outcome shape with Model.run_prog fed with the recorded solver answers.
 """
 import itertools
 import os
@@ -20,7 +25,7 @@ from harness import common
 from harness.common import Model
 
 PID = "C13"
-TRANSLATORS = ["T-selectors-assert", "T-selectors-assume"]
+TRANSLATORS = ["T-selectors-assert", "T-selectors-assume", "T-assert-arms", "T-exc-hierarchy", "T-run-excepts"]
 
 # genuine defects of halmos found by this check (see the final report); a failing input whose
 # `sig` matches an entry is printed as KNOWN-FINDING instead of VIOLATION
@@ -28,7 +33,9 @@ KNOWN = common.known_for("C13")  # entries live in /verif/known_findings.json
 
 PARTIAL = ("the Coq model takes calldata as concrete bytes under a valuation (symbolic offsets/lengths are "
            "NotConcreteError => stuck, outside the model); message bytes that are symbolic are not decoded by halmos and not modelled; "
-           "bytes[]/string[] overloads are stated as NotImplemented, their relation is not specified")
+           "bytes[]/string[] overloads are not supported by halmos: proved and checked to end the current path as a stuck path "
+           "(no pass claimed, other paths kept); their relation itself is not specified; "
+           "a sequence is a straight line of cheatcode calls issued by one frame (no EVM computation between them)")
 ASSUMPTIONS = [
     "ByteVec slices behave as a flat zero-extended byte array (property C07); z3py operators denote their SMT-LIB meaning (== / != equality, ULT/UGT/ULE/UGE unsigned, < > <= >= signed on BitVecRef)",
     "the solver oracle is sound when it answers unsat (Section hypothesis of C13_fail_exact / C13_assert_continue); is_false() only holds for the literal false",
@@ -229,7 +236,12 @@ def concretize(segs, val):
 
 
 def hard_fun(x):
-    return (x * x * x + 0x9E3779B97F4A7C15 * x) % W
+    """a word the branching solver cannot decide within its 1 ms: a cubic over the low 64 bits of x, sign-extended
+    (64-bit multipliers: z3 gives up quickly; with 256-bit ones a single check costs seconds of bit-blasting, which its
+    timeout does not interrupt)"""
+    t = x % (1 << 64)
+    v = (t * t * t + 0x9E3779B97F4A7C15 * t) % (1 << 64)
+    return (v - (1 << 64)) % W if v >= (1 << 63) else v
 
 
 def segs_of(data, syms=()):
@@ -285,11 +297,14 @@ def _classify_exc(e):
         return ["EXC TimeoutError"]
     if isinstance(e, UnicodeDecodeError):
         return [5]
-    if isinstance(e, NotImplementedError):
-        return [4]
     if isinstance(e, ValueError):
         return [3]
-    return [f"EXC {type(e).__name__}"]
+    if isinstance(e, (OverflowError, MemoryError)):
+        return [f"EXC {type(e).__name__}"]   # huge lengths in malformed calldata: outside the model (is_huge)
+    # any other class: its name, and whether SEVM.run turns it into a stuck path (HalmosException)
+    from halmos.exceptions import HalmosException
+
+    return [4, int(isinstance(e, HalmosException))] + [ord(c) for c in type(e).__name__]
 
 
 def _run_handler_obs(h, sel, segs, vals):
@@ -338,7 +353,7 @@ class _CaseTimeout(Exception):
     pass
 
 
-def _guarded(fn, case, n):
+def _guarded(fn, case, n, allowance=None):
     """run fn(case) under an alarm; on timeout / MemoryError return n observations naming it"""
     import signal
 
@@ -346,7 +361,7 @@ def _guarded(fn, case, n):
         raise _CaseTimeout()
 
     old = signal.signal(signal.SIGALRM, on_alarm)
-    signal.alarm(CASE_TIMEOUT_S if _TIMEOUTS[0] < 2 else 3)
+    signal.alarm(allowance or (CASE_TIMEOUT_S if _TIMEOUTS[0] < 2 else 3))
     try:
         return fn(case)
     except _CaseTimeout:
@@ -369,7 +384,11 @@ def impl_sig(case):
 
 def impl_l2(case):
     r = _guarded(_impl_l2, case, None)
-    return r if r is not None else {"exc": "TimeoutOrMemoryError"}
+    if r is None and _TIMEOUTS[0] <= 1:
+        # the first timeout of this worker: the machine may just be loaded; once more, with a long allowance
+        r = _guarded(_impl_l2, case, None, allowance=90)
+    # a case that cannot be evaluated is a broken tie (never a pass, never a failing input)
+    return r if r is not None else {"exc": "TIMEOUT", "checks": []}
 
 
 def _impl_l1(case):
@@ -616,15 +635,36 @@ def gen_sigs(tier, r, table_sigs):
 ASSUME_SEL = 0x4C63E562
 
 
-def _fwd_code(target):
-    # CALLDATASIZE PUSH0 PUSH0 CALLDATACOPY; CALL(gas, target, 0, 0, CALLDATASIZE, 0, 0); POP; STOP
-    return bytes([0x36, 0x5F, 0x5F, 0x37, 0x5F, 0x5F, 0x36, 0x5F, 0x5F, 0x73]) + target.to_bytes(20, "big") + bytes([0x5A, 0xF1, 0x50, 0x00])
+# what a calling frame does with the success flag of the nested call: "ignore" (POP) or "assume_ok" -- the common
+# `(bool ok,) = target.call(data); vm.assume(ok);`.  It must make no difference: a failed assertion ends the path in the
+# failing frame, the caller is never resumed with ok = 0 (where vm.assume(ok) would discard the path, failure included)
+_AFTER_CALL = {
+    "ignore": bytes([0x50, 0x00]),
+    # [ok] PUSH4 assume-selector PUSH1 0xE0 SHL PUSH0 MSTORE; PUSH1 4 MSTORE (mem[4:36] = ok); CALL(gas, hevm, 0, 0, 36, 0, 0); POP; STOP
+    "assume_ok": (bytes([0x63]) + (0x4C63E562).to_bytes(4, "big") + bytes([0x60, 0xE0, 0x1B, 0x5F, 0x52, 0x60, 0x04, 0x52])
+                  + bytes([0x5F, 0x5F, 0x60, 0x24, 0x5F, 0x5F, 0x73]) + HEVM.to_bytes(20, "big") + bytes([0x5A, 0xF1, 0x50, 0x00])),
+}
 
 
-def _root_code(target):
-    # copy calldata; CALL(hevm, mem[0:36]) (the vm.assume prefix); CALL(target, mem[36:]); STOP
+def _fwd_code(target, after="ignore"):
+    # CALLDATASIZE PUSH0 PUSH0 CALLDATACOPY; CALL(gas, target, 0, 0, CALLDATASIZE, 0, 0); <after>
+    return bytes([0x36, 0x5F, 0x5F, 0x37, 0x5F, 0x5F, 0x36, 0x5F, 0x5F, 0x73]) + target.to_bytes(20, "big") + bytes([0x5A, 0xF1]) + _AFTER_CALL[after]
+
+
+def _root_code(target, after="ignore"):
+    # copy calldata; CALL(hevm, mem[0:36]) (the vm.assume prefix); CALL(target, mem[36:]); <after>
     return (bytes([0x36, 0x5F, 0x5F, 0x37, 0x5F, 0x5F, 0x60, 0x24, 0x5F, 0x5F, 0x73]) + HEVM.to_bytes(20, "big") + bytes([0x5A, 0xF1, 0x50])
-            + bytes([0x5F, 0x5F, 0x60, 0x24, 0x36, 0x03, 0x60, 0x24, 0x5F, 0x73]) + target.to_bytes(20, "big") + bytes([0x5A, 0xF1, 0x50, 0x00]))
+            + bytes([0x5F, 0x5F, 0x60, 0x24, 0x36, 0x03, 0x60, 0x24, 0x5F, 0x73]) + target.to_bytes(20, "big") + bytes([0x5A, 0xF1])
+            + (_AFTER_CALL[after] if target != HEVM else _AFTER_CALL["ignore"]))
+
+
+def _seq_code(chunks):
+    # copy calldata to memory; for each (offset, length): CALL(gas, hevm, 0, offset, length, 0, 0); POP; then STOP
+    code = bytes([0x36, 0x5F, 0x5F, 0x37])
+    for off, n in chunks:
+        code += (bytes([0x5F, 0x5F, 0x61]) + n.to_bytes(2, "big") + bytes([0x61]) + off.to_bytes(2, "big")
+                 + bytes([0x5F, 0x73]) + HEVM.to_bytes(20, "big") + bytes([0x5A, 0xF1, 0x50]))
+    return code + b"\x00"
 
 
 def _assume_word(spec, syms):
@@ -668,16 +708,41 @@ def _impl_l2(case):
 
     depth = case["depth"]
     syms = {}
-    parts = [ASSUME_SEL.to_bytes(4, "big"), _assume_word(case["assume"], syms), case["sel"].to_bytes(4, "big")]
-    for s in case["segs"]:
-        if s[0] == "c":
-            if s[1]:
-                parts.append(bytes.fromhex(s[1]))
-        elif s[0] == "m":
-            x = syms.setdefault(s[1], z3.BitVec(s[1], 256))
-            parts.append(x * x * x + z3.BitVecVal(0x9E3779B97F4A7C15, 256) * x)
-        else:
-            parts.append(syms.setdefault(s[1], z3.BitVec(s[1], 8 * s[2])))
+
+    def seg_parts(segs):
+        out, n = [], 0
+        for s in segs:
+            if s[0] == "c":
+                if s[1]:
+                    out.append(bytes.fromhex(s[1]))
+                n += len(s[1]) // 2
+            elif s[0] == "m":
+                x = syms.setdefault(s[1], z3.BitVec(s[1], 256))
+                t = z3.Extract(63, 0, x)
+                out.append(z3.SignExt(192, t * t * t + z3.BitVecVal(0x9E3779B97F4A7C15, 64) * t))
+                n += 32
+            else:
+                out.append(syms.setdefault(s[1], z3.BitVec(s[1], 8 * s[2])))
+                n += s[2]
+        return out, n
+
+    seq = case.get("steps")
+    chunks = []
+    if seq is None:
+        parts = [ASSUME_SEL.to_bytes(4, "big"), _assume_word(case["assume"], syms), case["sel"].to_bytes(4, "big")]
+        parts += seg_parts(case["segs"])[0]
+    else:
+        # the frame at `depth` issues one cheatcode call per step, each on its own calldata chunk
+        parts, pos = [], 0
+        for st in seq:
+            if st["kind"] == "assume":
+                ps, n = [ASSUME_SEL.to_bytes(4, "big"), _assume_word(st["assume"], syms)], 36
+            else:
+                sp, sn = seg_parts(st["segs"])
+                ps, n = [st["sel"].to_bytes(4, "big")] + sp, 4 + sn
+            parts += ps
+            chunks.append((pos, n))
+            pos += n
     data = ByteVec(parts)
 
     args = default_config()
@@ -687,7 +752,11 @@ def _impl_l2(case):
     code = {}
     for i, a in enumerate(addrs):
         tgt = addrs[i + 1] if i < depth else HEVM
-        code[con_addr(a)] = Contract(_root_code(tgt) if i == 0 else _fwd_code(tgt))
+        if seq is None:
+            after = case.get("after", "ignore") if i < depth else "ignore"   # the frame that calls hevm itself just goes on
+            code[con_addr(a)] = Contract(_root_code(tgt, after) if i == 0 else _fwd_code(tgt, after))
+        else:
+            code[con_addr(a)] = Contract(_fwd_code(tgt, case.get("after", "ignore")) if i < depth else _seq_code(chunks))
     this = con_addr(addrs[0])
     message = Message(target=this, caller=z3.BitVec("msg_sender", 160), origin=z3.BitVec("tx_origin", 160),
                       value=z3.BitVecVal(0, 256), data=data, call_scheme=EVM.CALL)
@@ -733,12 +802,18 @@ def _impl_l2(case):
             out["paths"].append({"flag": bool(is_global_fail_set(e.context)), "stuck": bool(e.context.is_stuck()),
                                  "error": type(err).__name__ if err is not None else None, "depth": e.context.depth,
                                  "nconds": len(conds), "holds": holds})
+    except (_CaseTimeout, MemoryError):
+        raise
     except Exception as e:  # noqa: BLE001
         out = {"exc": type(e).__name__}
     finally:
         Exec.check = orig_check
         hevm_cheat_code.handle = orig_handle
     out["checks"] = [r for n, r in checks if n == 2]
+    if seq is not None:
+        # the calls are issued by one state, in program order: the n-th call of handle is step n
+        out["checks_by_call"] = [[r for n, r in checks if n == k + 1] for k in range(len(seq))]
+        out["calls"] = state["n"]
     return out
 
 
@@ -751,7 +826,8 @@ def gen_l2(tier, r, table):
     def add(depth, assume, sig, data, syms=(), vals=None, mode="assert"):
         sel, d = by_sig[sig] if sig in by_sig else (ASSUME_SEL, None)
         cases.append({"kind": "l2", "mode": mode, "depth": depth, "assume": assume, "sig": sig, "sel": sel,
-                      "descr": list(d) if d else None, "segs": segs_of(data, syms), "vals": vals or [{}]})
+                      "descr": list(d) if d else None, "segs": segs_of(data, syms), "vals": vals or [{}],
+                      "after": "assume_ok" if depth and len(cases) % 2 else "ignore"})
 
     T = ["const", 1]
     for depth in range(4):
@@ -853,7 +929,8 @@ def known_or_fail(rep, what, case, sig):
                 hits[k["id"]] = {"what": k["what"], "first_case": case, "count": 0}
             hits[k["id"]]["count"] += 1
             return True
-    if len([f for f in rep.failures if f["kind"] == "failing-input"]) < 10:
+    # at most 4 recorded per kind of defect (a known finding must not use up the room of a new one)
+    if len([f for f in rep.failures if f["kind"] == "failing-input" and (f.get("sig") or {}).get("defect") == sig.get("defect")]) < 4:
         rep.fail("failing-input", what, case=case, sig=sig)
     return False
 
@@ -863,17 +940,21 @@ def check_l2(rep, bad, l2, impl2, res2):
     enc = {"unsat": 0, "sat": 1, "unknown": 2}
     for k, (c, im) in enumerate(zip(l2, impl2)):
         d = tuple(c["descr"]) if c["descr"] else None
-        shown = {"l2": True, "mode": c["mode"], "depth": c["depth"], "assume": c["assume"], "sig": c["sig"], "sel": c["sel"], "segs": c["segs"]}
+        shown = {"l2": True, "mode": c["mode"], "depth": c["depth"], "assume": c["assume"], "sig": c["sig"], "sel": c["sel"], "segs": c["segs"], "after": c.get("after", "ignore")}
+        rep.count("l2_callers", c.get("after", "ignore") if c["depth"] else "no-caller")
         rep.count("l2_depth", c["depth"])
         rep.count("l2_mode", c["mode"] + ("/hard" if any(s[0] == "m" for s in c["segs"]) else "/symbolic" if any(s[0] == "s" for s in c["segs"]) else "/concrete"))
         if im.get("checks"):
             rep.count("l2_solver_answers", "/".join(im["checks"]))
         nontriv = False
+        if im.get("exc") == "TIMEOUT":
+            bad("broken-tie", f"L2 {c['sig']} depth {c['depth']}: the run did not finish within the allowance (twice): not evaluated", shown)
+            continue
         if "exc" in im:
             cd0 = c["sel"].to_bytes(4, "big") + concretize(c["segs"], c["vals"][0])
             m = spec_msg(d, cd0) if d else None
-            if d and d[1] in ("string", "bytes") and d[2] and im["exc"] == "NotImplementedError":
-                bad("failing-input", f"{c['sig']} at call depth {c['depth']}: NotImplementedError escapes SEVM.run", shown, {"defect": "bytes-array-not-implemented"})
+            if d and d[1] in ("string", "bytes") and d[2]:
+                bad("failing-input", f"{c['sig']} at call depth {c['depth']}: {im['exc']} escapes SEVM.run: the unsupported overload takes every path of the test down instead of ending this path as stuck", shown, {"defect": "unsupported-escapes-run", "exc": im["exc"]})
             elif m is not None and not utf8_ok(m) and im["exc"] == "UnicodeDecodeError":
                 bad("failing-input", f"{c['sig']} at call depth {c['depth']}: UnicodeDecodeError escapes SEVM.run", shown, {"defect": "unicode-message"})
             else:
@@ -893,6 +974,15 @@ def check_l2(rep, bad, l2, impl2, res2):
             other = any((not p["flag"]) and (p["error"] is not None or p["stuck"]) and p["holds"][j] is True for p in paths)
             cd = c["sel"].to_bytes(4, "big") + concretize(c["segs"], val)
             sv = dict(shown, valuation=val, observed={"failure_reported": failed, "continues": normal})
+            if d and d[1] in ("string", "bytes") and d[2]:
+                # unsupported overload: exactly the inputs of the prior path end on a stuck path; nothing passes, nothing fails
+                nontriv = True
+                rep.count("l2_expected", "stuck" if prior else "excluded-by-assume")
+                stuckp = any((not p["flag"]) and p["stuck"] and p["holds"][j] is True for p in paths)
+                errp = any((not p["flag"]) and (not p["stuck"]) and p["error"] is not None and p["holds"][j] is True for p in paths)
+                if failed or normal or errp or stuckp != prior:
+                    bad("failing-input", f"L2 {c['sig']} at call depth {c['depth']} after vm.assume({c['assume']}): input {val}: failure={failed}, continues={normal}, stuck={stuckp}, other error={errp}; an unsupported cheatcode must leave exactly the inputs of the prior path ({prior}) on a stuck path", sv, {"defect": "l2-unsupported", "sig": c["sig"]})
+                continue
             if other:
                 bad("failing-input", f"L2 {c['sig']} depth {c['depth']}: input {val} ends in an error/stuck path that is not a reported assertion failure", sv, {"defect": "l2-other-path", "sig": c["sig"]})
             if c["mode"] == "assume":
@@ -925,6 +1015,209 @@ def check_l2(rep, bad, l2, impl2, res2):
             if not ok:
                 bad("broken-tie", f"L2 {c['sig']} depth {c['depth']}: solver answers {im['checks']} -> model outcomes {outs}, implementation paths {paths}", shown)
         rep.case({"l2": k, "sig": c["sig"], "depth": c["depth"], "assume": c["assume"], "segs": c["segs"], "nvals": len(c["vals"])}, nontrivial=nontriv)
+
+
+# ----------------------------------------------------------------- L2s: a sequence of cheatcode calls in one frame
+
+def _is_unsupported(d):
+    return d is not None and d[1] in ("string", "bytes") and bool(d[2])
+
+
+def gen_l2seq(tier, r, table):
+    """cases {"kind": "l2seq", "depth", "steps": [...], "vals": [...]}: the frame at call depth `depth` issues the
+    steps one after the other (each a vm.assert* overload on its own calldata, or vm.assume) and returns"""
+    by_sig = {render(d): (sel, d) for sel, d in table.items()}
+    thorough = tier != "quick"
+    pool = WORDS[:8] + [3, 4, 5, 7, 9, 10, 11]
+
+    def A(sig, items, syms=()):
+        sel, d = by_sig[sig]
+        return {"kind": "assert", "sig": sig, "sel": sel, "descr": list(d), "segs": segs_of(abi_encode(items), syms)}
+
+    def M(spec):
+        return {"kind": "assume", "assume": spec}
+
+    X, Y, B = [(0, 32, "x")], [(0, 32, "y")], [(31, 1, "b")]
+    unsupported = [lambda: A("assertEq(bytes[],bytes[])", [("w", 64), ("w", 96), ("w", 0), ("w", 0)]),
+                   lambda: A("assertNotEq(string[],string[],string)", [("w", 96), ("w", 128), ("b", b"m"), ("w", 0), ("w", 0)]),
+                   lambda: A("assertEq(string[],string[])", [("w", 64), ("w", 96), ("w", 0), ("w", 0)]),
+                   lambda: A("assertNotEq(bytes[],bytes[])", [])]
+    asserts = [lambda: A("assertLt(uint256,uint256)", [("w", 0), ("w", 5)], X),
+               lambda: A("assertLt(uint256,uint256)", [("w", 0), ("w", 10)], X),
+               lambda: A("assertGe(uint256,uint256)", [("w", 0), ("w", 3)], X),
+               lambda: A("assertLt(int256,int256)", [("w", 0), ("w", 0)], X),
+               lambda: A("assertGt(int256,int256,string)", [("w", 0), ("w", W - 3), ("b", b"why")], Y),
+               lambda: A("assertTrue(bool)", [("w", 0)], B),
+               lambda: A("assertFalse(bool,string)", [("w", 0), ("b", b"no")], B),
+               lambda: A("assertEq(uint256,uint256)", [("w", 0), ("w", 0)], [(0, 32, "x"), (32, 32, "y")]),
+               lambda: A("assertNotEq(uint256,uint256)", [("w", 0), ("w", 7)], X),
+               lambda: A("assertLe(uint256,uint256)", [("w", 0), ("w", 0)], [(0, 32, "y"), (32, 32, "x")]),
+               lambda: A("assertTrue(bool)", [("w", 0)]),                                   # literally false: the state itself fails
+               lambda: A("assertEq(uint256,uint256)", [("w", 3), ("w", 3)]),                # literally true
+               lambda: A("assertEq(bytes,bytes)", [("b", b"ab"), ("b", b"ab")]),
+               lambda: A("assertEq(string,string)", [("b", b"ab"), ("b", b"ab\0")]),
+               lambda: A("assertEq(uint256[],uint256[])", [("a", [1, 2]), ("a", [1, 2])]),
+               lambda: A("assertNotEq(int256[],int256[])", [("a", [0]), ("a", [1])], [(64 + 32, 32, "y")])]
+    assumes = [lambda: M(["ult", "x", 10]), lambda: M(["ult", "x", 4]), lambda: M(["slt", "x", 0]), lambda: M(["var", "y"]),
+               lambda: M(["ult", "y", 1 << 255]), lambda: M(["const", 1]), lambda: M(["const", 0])]
+
+    def vals(n):
+        out = [{"x": r.choice(pool), "y": r.choice(pool), "b": r.choice([0, 1, 1, 0])} for _ in range(n)]
+        out += [{"x": v, "y": v, "b": k % 2} for k, v in enumerate(pool[:4])]
+        return out
+
+    cases = []
+
+    def add(depth, steps, tag):
+        cases.append({"kind": "l2seq", "depth": depth, "steps": steps, "vals": vals(16 if thorough else 9), "tag": tag,
+                      "after": "assume_ok" if depth and len(cases) % 2 else "ignore"})
+
+    for depth in range(4):
+        u = unsupported[depth % len(unsupported)]
+        # an earlier assertion's failing branch is on the worklist when the unsupported call is reached
+        add(depth, [asserts[0](), u()], "assert;unsupported")
+        add(depth, [M(["ult", "x", 10]), asserts[2](), u(), asserts[10]()], "assume;assert;unsupported;assert")
+        add(depth, [u(), asserts[10]()], "unsupported;false")
+        add(depth, [asserts[10](), u()], "false;unsupported")
+        add(depth, [M(["const", 0]), u()], "assume(false);unsupported")
+        add(depth, [asserts[1](), asserts[0](), M(["var", "y"]), asserts[7]()], "assert;assert;assume;assert")
+        add(depth, [asserts[5](), M(["ult", "x", 4]), asserts[3](), asserts[11]()], "assert;assume;assert;true")
+        # known finding, in a sequence: the UnicodeDecodeError of the second call takes the first call's failure down
+        add(depth, [asserts[0](), A("assertTrue(bool,string)", [("w", 1), ("b", b"\xff")])], "assert;non-utf8-message")
+        for _ in range(30 if thorough else 5):
+            n = r.choice([2, 3, 3, 4, 5])
+            steps = []
+            for _k in range(n):
+                q = r.random()
+                steps.append(r.choice(unsupported)() if q < 0.15 else r.choice(assumes)() if q < 0.4 else r.choice(asserts)())
+            add(depth, steps, "random")
+    return cases
+
+
+def step_calldata(st, val):
+    return st["sel"].to_bytes(4, "big") + concretize(st["segs"], val)
+
+
+def foundry_verdict(steps, val):
+    """Foundry's run of the sequence on ONE input: 'fail' at the first false assertion, 'rejected' at the first false
+    assumption, 'unsupported' at an overload halmos does not implement, else 'pass'; None when some assert's calldata is
+    not a valid encoding under this valuation (the relation is undefined)"""
+    for st in steps:
+        if st["kind"] == "assume":
+            if not assume_holds(st["assume"], val):
+                return "rejected"
+        else:
+            d = tuple(st["descr"])
+            if _is_unsupported(d):
+                return "unsupported"
+            sp = spec_assert(d, step_calldata(st, val))
+            if sp is None:
+                return None
+            if not sp:
+                return "fail"
+    return "pass"
+
+
+def l2seq_model_calls(cases, impls):
+    enc = {"unsat": 0, "sat": 1, "unknown": 2}
+    calls = []
+    for c, im in zip(cases, impls):
+        cb = im.get("checks_by_call") or []
+        args = [c["depth"]]
+        for k, st in enumerate(c["steps"]):
+            if st["kind"] == "assume":
+                args += [1, int(st["assume"] == ["const", 0])]
+            else:
+                ch = cb[k] if k < len(cb) else []
+                cd = step_calldata(st, c["vals"][0])
+                args += [0, enc[ch[0]] if ch else 2, enc[ch[1]] if len(ch) > 1 else 2, len(st["sig"])] + [ord(x) for x in st["sig"]] + [len(cd)] + list(cd)
+        calls.append(("c13_seq", args))
+    return calls
+
+
+def check_l2seq(rep, bad, cases, impls, res):
+    for k, (c, im) in enumerate(zip(cases, impls)):
+        steps = c["steps"]
+        descr = "; ".join(st["sig"] if st["kind"] == "assert" else f"assume({st['assume']})" for st in steps)
+        shown = {"l2seq": True, "depth": c["depth"], "steps": steps, "after": c.get("after", "ignore")}
+        rep.count("l2_callers", c.get("after", "ignore") if c["depth"] else "no-caller")
+        rep.count("l2seq_depth", c["depth"])
+        rep.count("l2seq_shape", c["tag"])
+        rep.count("l2seq_len", len(steps))
+        mo = res[k] if res is not None else None
+        if im.get("exc") == "TIMEOUT":
+            bad("broken-tie", f"L2s [{descr}] depth {c['depth']}: the run did not finish within the allowance (twice): not evaluated", shown)
+            continue
+        if "exc" in im:
+            bad_msg = [st for st in steps if st["kind"] == "assert" and st["descr"][3] and not _is_unsupported(st["descr"])
+                       and (spec_msg(tuple(st["descr"]), step_calldata(st, c["vals"][0])) is not None)
+                       and not utf8_ok(spec_msg(tuple(st["descr"]), step_calldata(st, c["vals"][0])))]
+            if bad_msg and im["exc"] == "UnicodeDecodeError":
+                bad("failing-input", f"sequence [{descr}] at call depth {c['depth']}: UnicodeDecodeError escapes SEVM.run", shown, {"defect": "unicode-message"})
+            elif any(st["kind"] == "assert" and _is_unsupported(st["descr"]) for st in steps):
+                bad("failing-input", f"sequence [{descr}] at call depth {c['depth']}: {im['exc']} escapes SEVM.run: an unsupported overload takes every path of the test down (the failures found before it included) instead of ending one path as stuck",
+                    dict(shown, valuation=c["vals"][0]), {"defect": "unsupported-escapes-seq", "exc": im["exc"]})
+            else:
+                bad("failing-input", f"sequence [{descr}] at call depth {c['depth']}: {im['exc']} escapes SEVM.run", shown, {"defect": "exception", "exc": im["exc"]})
+            if mo is not None and mo != [9]:
+                bad("broken-tie", f"L2s [{descr}] depth {c['depth']}: {im['exc']} escapes the implementation, the model yields {mo}", shown)
+            rep.case({"l2seq": k, "steps": descr, "depth": c["depth"]}, nontrivial=True)
+            continue
+        paths = im["paths"]
+        for p in paths:
+            if any(isinstance(h, str) for h in p["holds"]):
+                bad("broken-tie", f"L2s [{descr}]: a path condition could not be evaluated: {p['holds']}", shown)
+        nontriv = False
+        for j, val in enumerate(c["vals"]):
+            v = foundry_verdict(steps, val)
+            if v is None:
+                continue
+            nontriv = True
+            rep.count("l2seq_verdict", v)
+            failed = any(p["flag"] and p["holds"][j] is True for p in paths)
+            normal = any((not p["flag"]) and p["error"] is None and not p["stuck"] and p["holds"][j] is True for p in paths)
+            stuck = any((not p["flag"]) and p["stuck"] and p["holds"][j] is True for p in paths)
+            other = any((not p["flag"]) and (not p["stuck"]) and p["error"] is not None and p["holds"][j] is True for p in paths)
+            sv = dict(shown, valuation=val, observed={"failure_reported": failed, "reaches_end": normal, "stuck": stuck, "other_error": other}, foundry=v)
+            if failed != (v == "fail"):
+                bad("failing-input", f"sequence [{descr}] at call depth {c['depth']}: input {val}: failure reported = {failed}, Foundry's run of the sequence on this input: {v}", sv, {"defect": "l2seq-wrong-failure-set"})
+            if normal and v not in ("pass", "fail"):
+                bad("failing-input", f"sequence [{descr}] at call depth {c['depth']}: input {val} reaches the normal end although Foundry's run is: {v}", sv, {"defect": "l2seq-wrong-pass"})
+            if v == "pass" and not normal:
+                bad("failing-input", f"sequence [{descr}] at call depth {c['depth']}: passing input {val} is dropped (no path reaches the end)", sv, {"defect": "l2seq-dropped-pass"})
+            if stuck and v not in ("unsupported", "fail"):
+                bad("failing-input", f"sequence [{descr}] at call depth {c['depth']}: input {val} is on a stuck path although Foundry's run is: {v}", sv, {"defect": "l2seq-wrong-stuck"})
+            if v == "unsupported" and not stuck:
+                bad("failing-input", f"sequence [{descr}] at call depth {c['depth']}: input {val} meets the unsupported call but is on no stuck path (it is silently dropped or passed)", sv, {"defect": "l2seq-unsupported-not-stuck"})
+            if other:
+                bad("failing-input", f"sequence [{descr}] at call depth {c['depth']}: input {val} ends on an error path that is neither a reported failure nor a stuck path", sv, {"defect": "l2seq-other-path"})
+        if mo is not None:
+            if mo == [9]:
+                bad("broken-tie", f"L2s [{descr}] depth {c['depth']}: the model says an exception escapes, the implementation yields {paths}", shown)
+            else:
+                outs = [mo[i:i + 4] for i in range(0, len(mo), 4)]
+                m_shape = sorted((o[0], o[3] if o[0] in (1, 3) else 0, o[2]) for o in outs)
+                i_shape = sorted(((1, p["depth"], 1) if p["flag"] else (3, p["depth"], 0) if p["stuck"] else (2, 0, 0) if p["error"] is None else (4, p["depth"], 0)) for p in paths)
+                if m_shape != i_shape:
+                    bad("broken-tie", f"L2s [{descr}] depth {c['depth']}: solver answers {im.get('checks_by_call')} -> model outcomes (kind, frames, flag) {m_shape}, implementation paths {i_shape}", shown)
+        rep.case({"l2seq": k, "steps": descr, "depth": c["depth"], "nvals": len(c["vals"])}, nontrivial=nontriv)
+
+
+# exceptions SEVM.run's clauses name; an exception class reaches the clause it is a subclass of (the four are disjoint subtrees)
+CLAUSE_ACTION = {"InfeasiblePath": 1, "EvmException": 2, "HalmosException": 3, "FailCheatcode": 4}
+
+
+def catch_expectations():
+    """(class name, expected action code) for every class of halmos.exceptions and some builtins, from Python's own issubclass"""
+    import halmos.exceptions as hx
+
+    out = []
+    classes = [v for v in vars(hx).values() if isinstance(v, type) and v.__module__ == hx.__name__]
+    classes += [ValueError, UnicodeDecodeError, NotImplementedError, KeyError, IndexError, OverflowError, AssertionError, Exception, RuntimeError, TypeError]
+    for cls in classes:
+        hits = [a for n, a in CLAUSE_ACTION.items() if issubclass(cls, getattr(hx, n))]
+        out.append((cls.__name__, hits[0] if len(hits) == 1 else 0 if not hits else -1))
+    return out
 
 
 def l2_model_calls(l2, impl2):
@@ -1001,7 +1294,18 @@ def run(rep, tier):
         lap("impl_l1")
         l2 = gen_l2(tier, r, table)
         impl2 = pool.map(impl_l2, l2, chunksize=4)
-        lap("impl_l2")
+        l2s = gen_l2seq(tier, r, table)
+        impl2s = pool.map(impl_l2, l2s, chunksize=2)
+    # a run that did not finish in a worker (a loaded machine: 16 workers share the cores with whatever else runs) is
+    # repeated here, alone, with a long allowance; only if that fails too is it reported (as a broken tie)
+    for cs, ims in ((l2, impl2), (l2s, impl2s)):
+        for k, im in enumerate(ims):
+            if im.get("exc") == "TIMEOUT" and rep.coverage.get("l2_reruns_after_timeout", 0) < 6:
+                rep.coverage["l2_reruns_after_timeout"] = rep.coverage.get("l2_reruns_after_timeout", 0) + 1
+                r2 = _guarded(_impl_l2, cs[k], None, allowance=300)
+                if r2 is not None:
+                    ims[k] = r2
+    lap("impl_l2")
 
     # model calls; a length beyond what Python can index (OverflowError / MemoryError in the real
     # code, malformed calldata only) is outside the model: such evaluations are counted, not compared
@@ -1025,8 +1329,14 @@ def run(rep, tier):
     calls2, idx2 = l2_model_calls(l2, impl2)
     n1 = len(calls)
     calls += calls2
+    n2 = len(calls)
+    calls += l2seq_model_calls(l2s, impl2s)
+    n3 = len(calls)
+    catches = catch_expectations()
+    calls += [("c13_catch", [ord(ch) for ch in name]) for name, _ in catches]
     res = Model(exe).parallel_batch(calls, timeout=300) if exe is not None else None
     res2 = {k: res[n1 + i] for k, i in idx2.items()} if res is not None else None
+    res2s = res[n2:n3] if res is not None else None
     lap("model")
 
     for i, c in enumerate(cases):
@@ -1057,10 +1367,12 @@ def run(rep, tier):
                 rep.count("spec_outcome", "invalid-encoding")
             if d[1] in ("string", "bytes") and d[2]:
                 rep.count("spec_outcome", "bytes-array")
-                if im == [4]:
-                    bad("failing-input", f"{c['sig']}: NotImplementedError", shown, {"defect": "bytes-array-not-implemented"})
-                else:
-                    bad("failing-input", f"{c['sig']}: expected NotImplementedError (model), got {im}", shown, {"defect": "bytes-array-changed"})
+                # not supported: the handler must say so with a HalmosException (=> only this path is stuck);
+                # any other exception class is caught by no clause of SEVM.run and takes the whole test down
+                if not (isinstance(im, list) and len(im) >= 2 and im[0] == 4 and im[1] == 1):
+                    name = "".join(chr(x) for x in im[2:]) if isinstance(im, list) and im and im[0] == 4 else str(im)
+                    bad("failing-input", f"{c['sig']}: the unsupported overload does not raise a HalmosException but {name}: only a HalmosException ends just this path as stuck (a class no clause of SEVM.run catches takes every path of the test down, InfeasiblePath drops the path silently, an EVM error lets the caller go on)",
+                        shown, {"defect": "unsupported-escapes", "exc": name})
             if is_huge(im):
                 rep.count("spec_outcome", "huge-length-outside-model")
                 if sp is not None:
@@ -1093,7 +1405,16 @@ def run(rep, tier):
         rep.case({"mk_assert_handler": sc["sig"]}, nontrivial=impl_s[i][0] != [0])
 
     check_l2(rep, bad, l2, impl2, res2)
-    rep.coverage["l2_runs"] = len(l2)
+    check_l2seq(rep, bad, l2s, impl2s, res2s)
+    # which except clause of SEVM.run an exception class reaches: the model (regenerated hierarchy + clauses) vs Python's issubclass
+    for k, (name, want) in enumerate(catches):
+        rep.count("catch_class", {0: "escapes", 1: "dropped", 2: "frame-error", 3: "stuck", 4: "fail-yield", -1: "ambiguous"}[want])
+        if want == -1:
+            bad("broken-tie", f"exception class {name} is a subclass of more than one class named by SEVM.run's except clauses: the clause order decides, outside the model", {"class": name})
+        elif res is not None and res[n3 + k] != [want]:
+            bad("broken-tie", f"exception class {name}: the model sends it to action {res[n3 + k]}, Python's issubclass to {want} (0 escapes, 1 dropped, 2 frame error, 3 stuck, 4 yield)", {"class": name})
+        rep.case({"catch": name}, nontrivial=want != 0)
+    rep.coverage["l2_runs"] = len(l2) + len(l2s)
     rep.coverage["traces_validated_against_impl"] = (len(calls) // 1) if res is not None else 0
     rep.coverage["exhaustive"] = False
     return rep.finish(
@@ -1101,7 +1422,7 @@ def run(rep, tier):
         trusted_base=common.TRUSTED_BASE_COMMON,
         assumptions=ASSUMPTIONS,
         partial=PARTIAL,
-        rule="L1 cases = (bound selector, calldata layout of concrete and symbolic chunks, valuations): word operands over sign/width boundaries (all pairs), bytes of lengths 0,1,31,32,33,64 equal / one bit flipped / prefix / trailing zero, arrays of lengths 0-3 equal / one element / length differing, messages incl. invalid UTF-8, truncated and out-of-range offsets; a case is non-trivial when its concretised calldata is a valid ABI encoding for the signature (so that the stated relation is defined); each valuation is one evaluation of the real handler's z3 condition vs the extracted model vs the Python spec. Signature-string cases = mk_assert_handler on table and mutated signatures compared behaviourally on 16 probe calldatas. L2 cases = (call depth 0..3, a vm.assume prefix [const / x<c / signed x<c / x!=0], a cheatcode call with concrete or symbolic operands, valuations): SEVM.run on a chain of forwarding contracts; per valuation the set of yielded paths whose constraints hold is compared with the spec (failure reported iff assumption holds and relation false; passing inputs continue; inputs excluded by the assumption have no path), and the outcome shape with the branching model fed with the recorded solver answers; every bound selector is also run once passing and once failing at a random depth",
+        rule="L1 cases = (bound selector, calldata layout of concrete and symbolic chunks, valuations): word operands over sign/width boundaries (all pairs), bytes of lengths 0,1,31,32,33,64 equal / one bit flipped / prefix / trailing zero, arrays of lengths 0-3 equal / one element / length differing, messages incl. invalid UTF-8, truncated and out-of-range offsets; a case is non-trivial when its concretised calldata is a valid ABI encoding for the signature (so that the stated relation is defined); each valuation is one evaluation of the real handler's z3 condition vs the extracted model vs the Python spec. Signature-string cases = mk_assert_handler on table and mutated signatures compared behaviourally on 16 probe calldatas. L2 cases = (call depth 0..3, a vm.assume prefix [const / x<c / signed x<c / x!=0], a cheatcode call with concrete or symbolic operands, valuations): SEVM.run on a chain of forwarding contracts; per valuation the set of yielded paths whose constraints hold is compared with the spec (failure reported iff assumption holds and relation false; passing inputs continue; inputs excluded by the assumption have no path), and the outcome shape with the branching model fed with the recorded solver answers; every bound selector is also run once passing and once failing at a random depth. L2s cases = (call depth 0..3, a sequence of 2-5 cheatcode calls issued by that frame: asserts over x / y / a bool, literally true / false asserts, bytes and array asserts, assumes [x<c, signed, y!=0, const], unsupported bytes[]/string[] overloads; fixed orders that put a failing branch on the worklist before an unsupported call, plus random orders; valuations of x, y, b): per valuation the yielded paths are compared with Foundry's run of the sequence on that input alone (failure iff first bad step is an assertion; pass => reaches the end; unsupported => on a stuck path; rejected => nowhere), and the multiset of (kind, frame depth, flag) with Model.run_prog fed with the recorded solver answers; non-trivial when at least one valuation gives every assert a valid encoding. Catch cases = every class of halmos.exceptions and 10 builtins: the model's except-clause routing vs Python's issubclass",
     )
 
 
@@ -1109,10 +1430,17 @@ def replay(rep, body):
     for f in body.get("failures", []):
         case = f.get("case") or {}
         print(f.get("kind"), ":", (f.get("what") or "")[:300])
+        if case.get("l2seq"):
+            c = {"kind": "l2seq", "depth": case["depth"], "steps": case["steps"], "vals": [case.get("valuation") or {}], "after": case.get("after", "ignore")}
+            print("L2s case      : depth", c["depth"], [st["sig"] if st["kind"] == "assert" else st for st in c["steps"]], c["vals"])
+            print("implementation:", impl_l2(c))
+            if case.get("valuation"):
+                print("spec (Foundry's run on this input):", foundry_verdict(c["steps"], case["valuation"]))
+            continue
         if case.get("l2"):
             d = [list(x) for x in spec_descrs() if render(x) == case.get("sig")]
             c = {"kind": "l2", "mode": case["mode"], "depth": case["depth"], "assume": case["assume"], "sig": case["sig"], "sel": case["sel"],
-                 "descr": d[0] if d else None, "segs": case["segs"], "vals": [case.get("valuation") or {}]}
+                 "descr": d[0] if d else None, "segs": case["segs"], "vals": [case.get("valuation") or {}], "after": case.get("after", "ignore")}
             print("L2 case       :", {k: c[k] for k in ("mode", "depth", "assume", "sig", "segs", "vals")})
             print("implementation:", impl_l2(c))
             if d:
